@@ -143,18 +143,24 @@ void ReadRecordHeader(
 
     if (fread(Header, 1, 1, f) != 1) {
         ChkIO(Name);
+
+        /* end of file without an I/O error: the terminating record is missing */
+
+        FormatError(Name, "unexpected end of file");
     }
     if ((*Header != FileHeaderEnd) && (*Header != FileHeaderStartAdr)) {
         if ((*Header == FileHeaderDataRec) || (*Header == FileHeaderRDataRec)
             || (*Header == FileHeaderRelocRec) || (*Header == FileHeaderRRelocRec)) {
-            if (fread(CPU, 1, 1, f) != 1) {
+            if ((fread(CPU, 1, 1, f) != 1) || (fread(Segment, 1, 1, f) != 1)
+                || (fread(Gran, 1, 1, f) != 1)) {
                 ChkIO(Name);
+                FormatError(Name, "unexpected end of file");
             }
-            if (fread(Segment, 1, 1, f) != 1) {
-                ChkIO(Name);
-            }
-            if (fread(Gran, 1, 1, f) != 1) {
-                ChkIO(Name);
+
+            /* both values are used as divisor resp. array index by all tools */
+
+            if ((*Segment >= SegCount) || (*Gran == 0)) {
+                FormatError(Name, "invalid segment or granularity in record header");
             }
         } else if (*Header <= 0x7f) {
             *CPU     = *Header;
